@@ -113,7 +113,9 @@ func runC15(ctx *report.Ctx) {
 	nItems := []string{"[nomarkup]\xe2\x82[/nomarkup]", "[nomarkup]\xac[/nomarkup]", "[nomarkup]\xc3[/nomarkup]", "[nomarkup]\xa9[/nomarkup]", "[nomarkup]é[/nomarkup]", "[nomarkup]\xf0\x9f[/nomarkup]", "[nomarkup]\x98\x80[/nomarkup]",
 		"[a]", "[/a]", "[/]", "[b/]", "x", "\xc3", " ", "é",
 		// the open form of a replacement marker hands the raw enclosed text to its processor (as the property "contents")
-		"[select value=contents]\xe2\x82[/select]", "[select value=contents]\xac[/select]"}
+		"[select value=contents]\xe2\x82[/select]", "[select value=contents]\xac[/select]",
+		// ... and the self-closing form takes its replacement text from a quoted property value
+		"[select value=a a=\"\xe2\x82\"/]", "[select value=a a=\"\xac\"/]"}
 	maxN := report.Pick(ctx, 5, 6)
 	part(ctx, "N", -1, func(c *explore.Chooser) {
 		n := 1 + c.Choose(maxN, "len")
